@@ -60,7 +60,9 @@ class CP1Disk(CP1Object):
             center_coords = center.real_affine_coords()
 
             with np.errstate(divide="ignore", invalid="ignore"):
-                normed_ctr = utils.normalize(center_coords)
+                # utils.normalize works in place: hand it a copy, the
+                # center itself is still needed below
+                normed_ctr = utils.normalize(center_coords.copy())
                 # we can just pick something arbitrary (unit-length)
                 # if we're at the origin
                 normed_ctr[utils.normsq(center_coords) == 0] = np.array([1.0, 0.0])
